@@ -81,6 +81,10 @@ func c04Worker(args []string) {
 		}
 		fmt.Fprintf(journal, "%s\n", c.ID)
 		_ = journal.Sync()
+		c04Note = func(note string) {
+			fmt.Fprintf(journal, "%s\t%s\n", c.ID, note)
+			_ = journal.Sync()
+		}
 		start := time.Now()
 		res := c04RunCase(c, scratch)
 		res.Millis = time.Since(start).Milliseconds()
@@ -88,6 +92,10 @@ func c04Worker(args []string) {
 		results.Write(append(b, '\n'))
 	}
 }
+
+// c04Note records, in the worker's journal, a fact about the case being run (the shape of the IR it reached), so
+// that the parent can tell apart crashes of the same function on structurally different inputs.
+var c04Note = func(string) {}
 
 func c04AllLangs(out string) []langCfg {
 	var ls []langCfg
@@ -142,7 +150,8 @@ func c04RunCase(c c04Case, scratch string) (res c04Result) {
 		if err != nil {
 			return fail(err)
 		}
-		return c04Generate(p, schemas, &stage, &res)
+		c04Note("shape=" + irCycleShape(schemas))
+		return c04Generate(p, schemas, &stage, &res, "")
 	case "ir":
 		var schemas ast.Schemas
 		if err := json.Unmarshal([]byte(c.Data), &schemas); err != nil {
@@ -154,7 +163,8 @@ func c04RunCase(c c04Case, scratch string) (res c04Result) {
 		}
 		p.Output.Types, p.Output.Builders, p.Output.Converters, p.Output.APIReference = true, true, true, true
 		p.Output.Directory = filepath.Join(dir, "out", "%l")
-		return c04Generate(p, schemas, &stage, &res)
+		c04Note("shape=" + irCycleShape(schemas))
+		return c04Generate(p, schemas, &stage, &res, c.Format) // Format of an IR case: the one language to generate, "" = all
 	case "passes":
 		stage = "yaml/passes/load"
 		passes, err := cogyaml.NewCompilerLoader().Load(strings.NewReader(c.Data))
@@ -165,6 +175,7 @@ func c04RunCase(c c04Case, scratch string) (res c04Result) {
 		if err := json.Unmarshal([]byte(c.Extra), &schemas); err != nil {
 			return fail(err)
 		}
+		c04Note("shape=" + irCycleShape(schemas))
 		for i, pass := range passes {
 			stage = "yaml/passes/apply/" + passName(pass)
 			schemas, err = compiler.Passes{pass}.Process(schemas)
@@ -193,6 +204,7 @@ func c04RunCase(c c04Case, scratch string) (res c04Result) {
 		if err := json.Unmarshal([]byte(c.Extra), &schemas); err != nil {
 			return fail(err)
 		}
+		c04Note("shape=" + irCycleShape(schemas))
 		for _, lang := range []string{"go", "typescript"} {
 			stage = "yaml/veneers/chain/" + lang
 			processed, err := newLanguage(lang).CompilerPasses().Process(schemas)
@@ -234,8 +246,11 @@ func c04RunCase(c c04Case, scratch string) (res c04Result) {
 	return res
 }
 
-func c04Generate(p *codegen.Pipeline, schemas ast.Schemas, stage *string, res *c04Result) c04Result {
+func c04Generate(p *codegen.Pipeline, schemas ast.Schemas, stage *string, res *c04Result, only string) c04Result {
 	for _, lang := range langNames {
+		if only != "" && lang != only {
+			continue
+		}
 		l := newLanguage(lang)
 		*stage = "chain/" + lang
 		ctx, err := p.ContextForLanguage(l, schemas)
@@ -647,6 +662,9 @@ func c04Cases(r *Run) []c04Case {
 	for _, b := range c04Breakers() {
 		add(b)
 	}
+	for _, c := range c04InfiniteTypeIRs() {
+		add(c)
+	}
 	pv, pschema := c04PipelineVariants()
 	for _, doc := range pv {
 		add(c04Case{Kind: "pipeline", Class: "pipeline", Data: doc, Extra: pschema})
@@ -699,6 +717,48 @@ func c04Cases(r *Run) []c04Case {
 	return cases
 }
 
+// c04InfiniteTypeIRs: fixed IRs holding a type of infinite size (an object that reaches itself without passing
+// through a struct member), one language at a time, so that every package that cannot cope shows at every seed
+// instead of whenever the random IRs happen to contain one.
+func c04InfiniteTypeIRs() []c04Case {
+	ref := func(n string) ast.Type { return ast.NewRef("pkga", n) }
+	forms := []struct {
+		name string
+		objs []ast.Object
+	}{
+		{"array-of-itself", []ast.Object{ast.NewObject("pkga", "Loop", ast.NewArray(ref("Loop")))}},
+		{"map-of-itself", []ast.Object{ast.NewObject("pkga", "Loop", ast.NewMap(ast.String(), ref("Loop")))}},
+		{"array-and-map", []ast.Object{
+			ast.NewObject("pkga", "Loop", ast.NewArray(ref("Other"))),
+			ast.NewObject("pkga", "Other", ast.NewMap(ast.String(), ast.NewArray(ref("Loop")))),
+		}},
+		{"union-with-array-of-itself", []ast.Object{ast.NewObject("pkga", "Loop", ast.NewDisjunction(ast.Types{ast.String(), ast.NewArray(ref("Loop"))}))}},
+	}
+	var out []c04Case
+	for _, f := range forms {
+		for _, holder := range []bool{false, true} {
+			objs := append([]ast.Object(nil), f.objs...)
+			name := f.name
+			if holder {
+				name += "+holder"
+				objs = append(objs, ast.NewObject("pkga", "Holder", ast.NewStruct(
+					ast.NewStructField("loop", ref("Loop"), ast.Required()),
+					ast.NewStructField("maybe", ref("Loop")),
+					ast.NewStructField("name", ast.String(), ast.Required()),
+				)))
+			}
+			schemas := ast.Schemas{ast.NewSchema("pkga", ast.SchemaMeta{})}
+			for _, o := range objs {
+				schemas[0].AddObject(o)
+			}
+			for _, lang := range langNames {
+				out = append(out, c04Case{Kind: "ir", Format: lang, Class: "ir:infinite-type/" + name, Data: mustJSON(schemas)})
+			}
+		}
+	}
+	return out
+}
+
 // ---- parent -----------------------------------------------------------------------------
 
 type shardOutcome struct {
@@ -708,7 +768,7 @@ type shardOutcome struct {
 	hangFrames map[string]string
 }
 
-func c04RunShard(self string, cases []c04Case, dir string, idx int) shardOutcome {
+func c04RunShard(self string, cases []c04Case, dir string, idx int, stall time.Duration) shardOutcome {
 	out := shardOutcome{results: map[string]c04Result{}, fatal: map[string]string{}}
 	casesPath := filepath.Join(dir, fmt.Sprintf("cases.%d.jsonl", idx))
 	var buf bytes.Buffer
@@ -771,7 +831,7 @@ func c04RunShard(self string, cases []c04Case, dir string, idx int) shardOutcome
 				if err == nil && st.Size() != lastSize {
 					lastSize, lastChange = st.Size(), time.Now()
 				}
-				if time.Since(lastChange) > 12*time.Second {
+				if time.Since(lastChange) > stall {
 					hung = true
 					// SIGQUIT makes the Go runtime dump goroutines to stderr (a file) before exiting
 					_ = cmd.Process.Signal(syscall.SIGQUIT)
@@ -790,7 +850,7 @@ func c04RunShard(self string, cases []c04Case, dir string, idx int) shardOutcome
 		if werr == nil && !hung {
 			break
 		}
-		culprit := lastJournal()
+		culprit, note, _ := strings.Cut(lastJournal(), "\t")
 		if culprit == "" || done[culprit] {
 			break
 		}
@@ -804,7 +864,29 @@ func c04RunShard(self string, cases []c04Case, dir string, idx int) shardOutcome
 			out.hangFrames[culprit] = runningFrame(string(eb))
 		} else {
 			eb, _ := os.ReadFile(errPath)
-			out.fatal[culprit] = crashClass(string(eb))
+			cls := crashClass(string(eb))
+			if strings.HasPrefix(cls, "fatal:stack-overflow@") {
+				// the same function overflowing on an input of another shape is another defect
+				shape := "no-ir-reached"
+				if strings.HasPrefix(note, "shape=") {
+					shape = strings.TrimPrefix(note, "shape=")
+				}
+				if shape == "structless-cycle" {
+					// a type of infinite size (`A = [...A]`) sends every recursive walker of a package round in circles, and
+					// which function of the circle the truncated dump shows most varies: the package names the finding
+					fn := strings.TrimPrefix(cls, "fatal:stack-overflow@")
+					if i := strings.LastIndex(fn, "/"); i >= 0 {
+						if j := strings.Index(fn[i:], "."); j >= 0 {
+							fn = fn[:i+j]
+						}
+					} else if j := strings.Index(fn, "."); j >= 0 {
+						fn = fn[:j]
+					}
+					cls = "fatal:stack-overflow@" + fn
+				}
+				cls += "/" + shape
+			}
+			out.fatal[culprit] = cls
 		}
 	}
 	return out
@@ -909,7 +991,7 @@ func checkC04(r *Run) {
 		wg.Add(1)
 		go func(s int, part []c04Case) {
 			defer wg.Done()
-			outs[s] = c04RunShard(self, part, dir, s)
+			outs[s] = c04RunShard(self, part, dir, s, 12*time.Second)
 		}(s, cases[lo:hi])
 	}
 	wg.Wait()
@@ -927,16 +1009,22 @@ func checkC04(r *Run) {
 			c := byID[id]
 			// re-run alone with a generous limit before calling it a hang
 			aloneIdx++
-			alone := c04RunShard(self, []c04Case{c}, dir, 1000+aloneIdx)
+			alone := c04RunShard(self, []c04Case{c}, dir, 1000+aloneIdx, 90*time.Second)
 			if _, ok := alone.results[id]; ok {
 				r.CaseInconclusive("case " + id + " stalled in a loaded worker but completes alone")
+				continue
+			}
+			if cls := alone.fatal[id]; cls != "" {
+				// a runaway recursion that had not yet exhausted its stack when the shard's watchdog fired
+				r.Violation(cls, fmt.Sprintf("worker process died while running case %s (%s %s, class %s): %s\ninput:\n%s", id, c.Kind, c.Format, c.Class, cls, truncate(c.Data, 1500)), map[string]any{"case": c})
+				r.Count("fatal_crashes", 1)
 				continue
 			}
 			frame := alone.hangFrames[id]
 			if frame == "" {
 				frame = o.hangFrames[id]
 			}
-			r.Violation(fmt.Sprintf("hang@%s", frame), fmt.Sprintf("case %s (class %s) does not terminate (no progress for 12s in a shard, then again alone); running in %s\ninput:\n%s", id, c.Class, frame, truncate(c.Data, 1500)), map[string]any{"case": c})
+			r.Violation(fmt.Sprintf("hang@%s", frame), fmt.Sprintf("case %s (class %s) does not terminate (no progress for 12s in a shard, then for 90s alone); running in %s\ninput:\n%s", id, c.Class, frame, truncate(c.Data, 1500)), map[string]any{"case": c})
 		}
 	}
 	for _, c := range cases {
